@@ -31,6 +31,11 @@ def bool_overloading_classes(prog: core.Program) -> set[str]:
     return _bool_family_cache[key]
 
 
+def is_native(t) -> bool:
+    t = types.strip_opt(t)
+    return bool(t) and t[0] == 'alias' and t[1] == NATIVE_ALIAS
+
+
 def truth_unsafe(prog: core.Program, t) -> typing.Optional[str]:
     """Why truthiness of a value of declared type ``t`` is not an absence test; None when it is fine/unknown."""
     if t is None:
@@ -51,19 +56,19 @@ def truth_unsafe(prog: core.Program, t) -> typing.Optional[str]:
     return None
 
 
-def r_truthy(ctx, tenv: types.TypeEnv, funcs: typing.Iterable[core.FuncInfo], rule: str = 'R-TRUTHY', accept=None) -> int:
+def r_truthy(ctx, tenv: types.TypeEnv, funcs: typing.Iterable[core.FuncInfo], rule: str = 'R-TRUTHY', select=None) -> int:
     """A value whose declared type is Optional[dsl.Native] / Optional[<DSL feature with overloaded __bool__>] must not
     be truth-tested.  Returns the number of typed truth-test candidates inspected (for instance floors)."""
     inspected = 0
     for fn in funcs:
         env = tenv.locals(fn)
         relevant = False
-        for expr, kind, owner in types.bool_contexts(fn.node):
+        for expr, kind, owner in tenv.bool_contexts(fn):
             if isinstance(expr, (ast.Compare, ast.Call, ast.Constant)):
                 continue
             t = tenv.expr_type(fn, expr, env)
             why = truth_unsafe(ctx.prog, t)
-            if why is None:
+            if why is None or (select is not None and not select(fn, expr, t)):
                 continue
             relevant = True
             inspected += 1
@@ -80,10 +85,184 @@ def r_truthy(ctx, tenv: types.TypeEnv, funcs: typing.Iterable[core.FuncInfo], ru
             if isinstance(node, ast.Compare) and len(node.ops) == 1 and isinstance(node.ops[0], (ast.Is, ast.IsNot)):
                 if core.is_const(node.comparators[0], None):
                     t = tenv.expr_type(fn, node.left, env)
-                    if truth_unsafe(ctx.prog, t):
+                    if truth_unsafe(ctx.prog, t) and (select is None or select(fn, node.left, t)):
                         inspected += 1
                         relevant = True
                         ctx.ok(rule, fn, f'absence of `{core.src(node.left)}` tested with `{core.src(node)}`', node)
         if relevant:
             ctx.touch(fn)
     return inspected
+
+
+# --------------------------------------------------------------------------------------------------
+# R-ARGORDER
+# --------------------------------------------------------------------------------------------------
+def _tail_ident(node: ast.AST) -> typing.Optional[str]:
+    if isinstance(node, ast.Name):
+        return node.id
+    if isinstance(node, ast.Attribute):
+        return node.attr
+    return None
+
+
+def r_argorder(ctx, resolver, funcs, pair: tuple[str, ...], rule: str = 'R-ARGORDER') -> int:
+    """Same-named values are not crossed at a call: an argument whose trailing identifier is one of ``pair`` and that
+    binds to a parameter that is also one of ``pair`` must bind to the parameter of its own name."""
+    n = 0
+    names = set(pair)
+    for fn in funcs:
+        for call in core.calls_in(fn.node, deep=False):
+            if not any(_tail_ident(a) in names for a in list(call.args) + [k.value for k in call.keywords]):
+                continue
+            callee = resolver.resolve(fn, call)
+            if callee is None:
+                continue
+            bound = resolver.bind(callee, call)
+            for pname, arg in bound.items():
+                ident = _tail_ident(arg)
+                if pname in names and ident in names:
+                    n += 1
+                    ctx.check(
+                        ident == pname,
+                        rule,
+                        fn,
+                        f'argument `{core.src(arg)}` bound to parameter `{pname}` of {callee.ref}',
+                        call,
+                        callee=callee.ref,
+                    )
+    return n
+
+
+# --------------------------------------------------------------------------------------------------
+# operator semantics (shared by C06 / C10 / C14)
+# --------------------------------------------------------------------------------------------------
+SYMBOL_OPERATOR = {
+    '<': {'lt'}, '<=': {'le'}, '>': {'gt'}, '>=': {'ge'}, '==': {'eq'}, '!=': {'ne'},
+    '+': {'add'}, '-': {'sub'}, '*': {'mul'}, '/': {'truediv'}, '%': {'mod'},
+    'AND': {'and_'}, 'OR': {'or_'}, 'NOT': {'inv', 'invert', 'not_SQL'},
+}
+# python builtins that force ``bool()`` of their operand: never a valid translation target for a SQL clause
+TRUTH_FORCING = {'operator.not_', 'operator.truth', 'operator.is_', 'operator.is_not', 'operator.contains', 'bool', 'all', 'any'}
+
+CMP_TABLE = {  # operator name -> truth value for (v<b, v==b, v>b)
+    'lt': (True, False, False), 'le': (True, True, False), 'gt': (False, False, True), 'ge': (False, True, True),
+    'eq': (False, True, False), 'ne': (True, False, True),
+}
+_CMP_AST = {ast.Lt: 'lt', ast.LtE: 'le', ast.Gt: 'gt', ast.GtE: 'ge', ast.Eq: 'eq', ast.NotEq: 'ne'}
+_SWAP = {'lt': 'gt', 'le': 'ge', 'gt': 'lt', 'ge': 'le', 'eq': 'eq', 'ne': 'ne'}
+
+
+def comparison_of(node: ast.AST) -> typing.Optional[str]:
+    """Name the comparison a callable expression denotes on (column, bound): ``operator.ge`` or a two-argument lambda
+    comparing its parameters.  None when it is not recognisably a comparison."""
+    name = core.dotted(node)
+    if name and name.split('.')[-1] in CMP_TABLE and (name.startswith('operator.') or '.' not in name):
+        return name.split('.')[-1]
+    if isinstance(node, ast.Lambda) and len(node.args.args) == 2 and isinstance(node.body, ast.Compare):
+        cmp = node.body
+        if len(cmp.ops) == 1 and isinstance(cmp.left, ast.Name) and isinstance(cmp.comparators[0], ast.Name):
+            a, b = node.args.args[0].arg, node.args.args[1].arg
+            op = _CMP_AST.get(type(cmp.ops[0]))
+            if op and cmp.left.id == a and cmp.comparators[0].id == b:
+                return op
+            if op and cmp.left.id == b and cmp.comparators[0].id == a:
+                return _SWAP[op]
+    return None
+
+
+def class_symbol(ci: core.ClassInfo) -> typing.Optional[str]:
+    found = ci.lookup('symbol')
+    if found and isinstance(found[1], ast.Constant) and isinstance(found[1].value, str):
+        return found[1].value
+    return None
+
+
+def dict_entries(node: ast.AST) -> list[tuple[ast.AST, ast.AST]]:
+    if not isinstance(node, ast.Dict):
+        raise core.AnalysisError(f'expected a dict literal, found {type(node).__name__}')
+    return [(k, v) for k, v in zip(node.keys, node.values) if k is not None]
+
+
+DUNDER_SYMBOL = {
+    '__lt__': '<', '__le__': '<=', '__gt__': '>', '__ge__': '>=', '__eq__': '==', '__ne__': '!=',
+    '__add__': '+', '__sub__': '-', '__mul__': '*', '__truediv__': '/', '__mod__': '%',
+    '__and__': 'AND', '__or__': 'OR', '__invert__': 'NOT',
+}
+ALCHEMY = 'forml.provider.feed.reader.alchemy'
+
+
+def expression_table(prog: core.Program) -> tuple[core.ClassInfo, list[tuple[ast.AST, ast.AST]]]:
+    parser = prog.cls(f'{ALCHEMY}:Parser')
+    node = parser.assigns.get('EXPRESSION')
+    if node is None:
+        raise core.AnalysisError('anchor vanished: alchemy.Parser.EXPRESSION')
+    return parser, dict_entries(node)
+
+
+def classify_translation(value: ast.AST) -> str:
+    """Semantic class of a translation-table value: operator name, 'not_SQL', 'lambda', 'func.<x>' or dotted text."""
+    name = core.dotted(value)
+    if name is None:
+        return 'lambda' if isinstance(value, ast.Lambda) else core.src(value)
+    if name in TRUTH_FORCING:
+        return 'TRUTH-FORCING:' + name
+    if name.startswith('operator.'):
+        return name.split('.')[-1]
+    if name.split('.')[-1] == 'not_' and not name.startswith('operator'):
+        return 'not_SQL'
+    return name
+
+
+def operator_chain(ctx, rule: str, only: typing.Optional[set[str]] = None) -> None:
+    """Operable.__op__ builds the expression class whose ``symbol`` is that operator, in (self, other) order (reflected
+    variants swapped), and the SQL translation table maps that class to the python operator of the same symbol."""
+    prog = ctx.prog
+    operable = prog.cls(f'{SERIES}:Operable')
+    parser, entries = expression_table(prog)
+    table: dict[str, ast.AST] = {}
+    for k, v in entries:
+        res = prog.resolve(parser.module, core.dotted(k) or '', scope=parser.qual)
+        if isinstance(res, core.ClassInfo):
+            table[res.ref] = v
+    n = 0
+    for dunder, sym in DUNDER_SYMBOL.items():
+        if only is not None and sym not in only:
+            continue
+        for name, reflected in ((dunder, False), ('__r' + dunder[2:], True)):
+            if name not in operable.methods:
+                if not reflected:
+                    raise core.AnalysisError(f'anchor vanished: Operable.{name}')
+                continue
+            fn = prog.func(f'{operable.ref}.{name}')
+            rets = [r for r in core.walk_local(fn.node) if isinstance(r, ast.Return) and isinstance(r.value, ast.Call)]
+            if len(rets) != 1:
+                raise core.AnalysisError(f'Operable.{name}: expected a single constructing return')
+            call = rets[0].value
+            cname = core.call_name(call) or ''
+            args = list(call.args)
+            if cname.endswith('Pythonic'):
+                built, operands = args[0], args[1:]
+            else:
+                built, operands = call.func, args
+            res = prog.resolve_expr(fn, built)
+            if not isinstance(res, core.ClassInfo):
+                ctx.fail(rule, fn, f'{name} builds an unresolvable expression `{core.src(built)}`', call)
+                continue
+            got = class_symbol(res)
+            n += 1
+            ctx.check(got == sym, rule, fn, f'{name} builds {res.name} whose symbol is {got!r} (expected {sym!r})', call)
+            want = ['other', 'self'] if reflected else ['self', 'other']
+            if sym != 'NOT':
+                ctx.check([core.src(o) for o in operands] == want, rule, fn, f'{name} passes operands as {want}', call, key=f'{name}:operands')
+            if not reflected:
+                val = table.get(res.ref)
+                if val is None:
+                    ctx.fail(rule, parser.ref, f'no SQL translation for {res.name}', key=f'EXPRESSION[{res.name}]', loc=parser.module.relpath)
+                else:
+                    kind = classify_translation(val)
+                    ctx.check(
+                        kind in SYMBOL_OPERATOR[sym], rule, parser.ref,
+                        f'EXPRESSION[{res.name}] = {core.src(val)} implements {sym!r}', key=f'EXPRESSION[{res.name}]',
+                        loc=f'{parser.module.relpath}:{val.lineno}',
+                    )
+    ctx.floor(rule, n, 4)
